@@ -219,6 +219,7 @@ func (e *SpecEnv) evalSum(n *SQuant) Value {
 		}
 		ss.fns[key] = fn
 		ss.list = append(ss.list, fn)
+		u.sumLinearity(fn, body.S, vname, ks, rs, isRange, outers, keyTyp, n.String())
 		u.assumptionsUsed["finite sums: sum/count over key sets and integer intervals are axiomatised recursively (empty, insert, remove, one-point split, pointwise congruence, non-negativity); machine arithmetic as A-INT/A-REAL"] = true
 	}
 	// 4. the application
@@ -362,4 +363,96 @@ func keyTypesCompatible(a, b types.Type) bool {
 		return true
 	}
 	return types.Identical(a, b)
+}
+
+// sumLinearity: a summand of the shape c*e, e*c or e/c with c free of every bound variable: register the summand e as
+// well and state  sum(c*e) == c * sum(e)  (sum(e/c) == sum(e)/c for c != 0) - finite sums are linear, and without this the
+// solver has to redo the distribution over every one-point insert by nonlinear arithmetic.
+func (u *Unit) sumLinearity(fn *sumFn, body, vname, ks, rs string, isRange bool, outers []outerVar, keyTyp types.Type, tmpl string) {
+	if rs != SReal && rs != SInt || len(body) < 5 || body[0] != '(' {
+		return
+	}
+	op := ""
+	switch {
+	case strings.HasPrefix(body, "(* "):
+		op = "*"
+	case strings.HasPrefix(body, "(/ ") && rs == SReal:
+		op = "/"
+	default:
+		return
+	}
+	in := body[3 : len(body)-1]
+	e1 := sexprEnd(in, 0)
+	if e1 <= 0 || e1 >= len(in) || in[e1] != ' ' {
+		return
+	}
+	a, b := in[:e1], in[e1+1:]
+	if sexprEnd(b, 0) != len(b) {
+		return // more than two factors
+	}
+	hasV := func(t string) bool { return substSym(t, vname, "\x00") != t }
+	free := func(t string) bool { return !qvarRe.MatchString(t) }
+	var c, e string
+	switch {
+	case op == "*" && !hasV(a) && free(a) && hasV(b):
+		c, e = a, b
+	case op == "*" && !hasV(b) && free(b) && hasV(a):
+		c, e = b, a
+	case op == "/" && !hasV(b) && free(b) && hasV(a):
+		c, e = b, a
+	default:
+		return
+	}
+	ss := u.sums()
+	// the inner summand e as its own sum function
+	canon := strings.ReplaceAll(e, vname, "%K")
+	var outerSorts []string
+	var pd, pa string
+	for i, o := range outers {
+		canon = strings.ReplaceAll(canon, o.t.S, fmt.Sprintf("%%O%d", i))
+		outerSorts = append(outerSorts, o.t.Sort)
+		pd += fmt.Sprintf(" (o%d %s)", i, o.t.Sort)
+		pa += fmt.Sprintf(" o%d", i)
+	}
+	key := fmt.Sprintf("%v|%s|%s|%s|%s", isRange, ks, rs, strings.Join(outerSorts, ","), canon)
+	inner := ss.fns[key]
+	if inner == nil {
+		inner = &sumFn{idx: len(ss.list) + 1, tmpl: tmpl + " /linear-part", ks: ks, rs: rs, isRange: isRange, outerS: outerSorts, keyTyp: keyTyp}
+		inner.fsym = fmt.Sprintf("sumF_%d", inner.idx)
+		params := []string{fmt.Sprintf("(%s %s)", vname, ks)}
+		for _, o := range outers {
+			params = append(params, fmt.Sprintf("(%s %s)", o.t.S, o.t.Sort))
+		}
+		u.ctx.declare(inner.fsym, fmt.Sprintf("(define-fun %s (%s) %s %s)", inner.fsym, strings.Join(params, " "), rs, e))
+		if isRange {
+			inner.ssym = fmt.Sprintf("sumR_%d", inner.idx)
+			u.ctx.Fun(inner.ssym, append([]string{SInt, SInt}, outerSorts...), rs)
+		} else {
+			inner.ssym = fmt.Sprintf("sumS_%d", inner.idx)
+			u.ctx.Fun(inner.ssym, append([]string{ArrSort(ks, SBool)}, outerSorts...), rs)
+		}
+		u.sumAxioms(inner)
+		for _, other := range ss.list {
+			if other.tmpl == inner.tmpl && other.ks == inner.ks && other.rs == inner.rs && other.isRange == inner.isRange && strings.Join(other.outerS, ",") == strings.Join(inner.outerS, ",") {
+				u.sumCongruence(other, inner)
+			}
+		}
+		ss.fns[key] = inner
+		ss.list = append(ss.list, inner)
+	}
+	dom, args := fmt.Sprintf("(A %s)", ArrSort(ks, SBool)), "A"
+	if isRange {
+		dom, args = "(lo Int) (hi Int)", "lo hi"
+	}
+	var rhs string
+	if op == "*" {
+		rhs = fmt.Sprintf("(* %s (%s %s%s))", c, inner.ssym, args, pa)
+	} else {
+		rhs = fmt.Sprintf("(/ (%s %s%s) %s)", inner.ssym, args, pa, c)
+	}
+	eq := fmt.Sprintf("(= (%s %s%s) %s)", fn.ssym, args, pa, rhs)
+	if op == "/" {
+		eq = fmt.Sprintf("(=> (not (= %s 0.0)) %s)", c, eq)
+	}
+	u.ctx.AssertAlways(Term{fmt.Sprintf("(forall (%s%s) (! %s :pattern ((%s %s%s))))", dom, pd, eq, fn.ssym, args, pa), SBool}, "sum-linearity")
 }
